@@ -58,6 +58,22 @@ type Scenario struct {
 	NoSpinRule   bool // do not turn vrt spin reports into failures (rare)
 	CheckRaces   bool // run the happens-before race detector and fail on any reported race
 	AccessPoints bool // plain field/map accesses are scheduling points (fine mode only)
+	// Shards > 1 splits the exploration tree of this scenario over several Scenario values (built with
+	// Split): the subtrees below the root execution are dealt round-robin, shard k takes those with
+	// index%Shards == k. Every shard runs the root execution; the union of the shards is the whole tree.
+	Shard, Shards int
+}
+
+// Split returns n copies of the scenario produced by mk, each exploring its share of the tree.
+func Split(n int, mk func() *Scenario) []*Scenario {
+	var out []*Scenario
+	for k := 0; k < n; k++ {
+		sc := mk()
+		sc.Shard, sc.Shards = k, n
+		sc.Name = fmt.Sprintf("%s#shard%d/%d", sc.Name, k, n)
+		out = append(out, sc)
+	}
+	return out
 }
 
 type Violation struct {
@@ -304,12 +320,20 @@ func (e *Explorer) Run() {
 				c += cost(&sc.Cfg, &pts[i], pts[i].Chosen)
 			}
 			e.record(o, bound, c)
+			child := 0
 			for i := len(pts) - 1; i >= len(prefix); i-- {
 				p := &pts[i]
+				if p.Frozen {
+					continue
+				}
 				for alt := p.N - 1; alt >= 1; alt-- {
 					if c+cost(&sc.Cfg, p, alt) > bound {
 						pruned = true
 						continue
+					}
+					child++
+					if len(prefix) == 0 && sc.Shards > 1 && child%sc.Shards != sc.Shard {
+						continue // another shard's subtree
 					}
 					np := make([]int, i+1)
 					for k := 0; k < i; k++ {
